@@ -49,7 +49,7 @@ def valpool(kind):
 
 class C11(Property):
     id = "C11"
-    lean_module = "RosuModel.Props.C11General"   # imports Props/C11.lean; both files are in namespace Rosu.C11
+    lean_module = "RosuModel.Props.C11Tables"    # imports Props/C11General.lean → Props/C11.lean; all three are in namespace Rosu.C11
     namespace = "Rosu.C11"
     design_ref = "5.11"
     required_theorems = ["value_is_after_first_colon", "no_colon_no_value", "editor_reject_no_effect", "metadata_reject_no_effect",
@@ -69,15 +69,24 @@ class C11(Property):
                          "metadata_eq_table", "metadata_invalid_value_noop", "metadataTable_frame", "metadata_frame",
                          "metadata_sets_own_field",
                          # [General] as a table
-                         "general_eq_table", "general_step_cases"]
+                         "general_eq_table", "general_step_cases",
+                         # Props/C11Tables.lean: the remaining sections as tables / cases, and what follows from them
+                         "applyRule_reject", "tableRule_invalid", "tableRule_unknown", "tableRule_frame", "tableRule_update",
+                         "lastValid_eq_lastSome",
+                         "bookmarks_skip_invalid", "editor_eq_table", "editor_invalid_value_noop", "editorTable_frame", "editor_frame",
+                         "editor_field_step", "editor_last_valid_wins",
+                         "difficulty_eq_table", "difficulty_invalid_value_noop", "difficultyTable_frame", "difficulty_frame",
+                         "has_ar_step", "difficulty_field_step", "difficulty_last_valid_wins", "approach_rate_step",
+                         "approach_rate_last_valid_wins",
+                         "colours_eq_table", "color_parse_spec", "color_components_u8", "setCustomColor_lookup",
+                         "colours_invalid_value_noop", "colours_frame",
+                         "events_eq_cases", "event_type_values", "events_invalid_noop", "events_frame", "events_break_record",
+                         "metadata_field_step", "metadata_last_valid_wins",
+                         "generalTable_frame", "general_frame", "general_invalid_value_noop", "general_field_step",
+                         "general_last_valid_wins"]
     partial_theorems = {
         "clamp_within / max_not_before": "proved under two order facts about `<` (irreflexive, asymmetric) taken as hypotheses; they hold for IEEE `<` "
                                         "but Lean's Float is opaque to the kernel, so for the float code they are exercised by the correspondence, not proved",
-        "last_valid_wins": "proved generically (last_valid_wins_generic) and instantiated for Title, [General] Mode and PreviewTime; the other fields share the same "
-                           "one-step shape but are not each instantiated — they are covered by the differential run against the table-driven oracle",
-        "section_eq_table": "proved for two whole sections: [Metadata] (metadata_eq_table, with invalid_value_noop and the frame property derived from the table) and "
-                            "[General] (general_eq_table: all fourteen keys with their conversions and error kinds). Editor, Difficulty, Events and Colours have per-key record "
-                            "theorems (slider_multiplier_clamped, break_appended, background_overwrites, …) but no single table statement",
     }
     level_text = ("Lean 4 theorems over the model of the record-section parsers (Editor, Metadata, Difficulty, Events, Colours; KeyValue): value = trimmed "
                   "text after the first colon (any further colons kept); rejected record ⇒ state unchanged, unknown key ⇒ accepted no-op; last valid "
@@ -90,7 +99,17 @@ class C11(Property):
                   "value rejects the record; Mode accepts exactly 0..3, Countdown / SampleSet the numbers 0..3 and their four names; AudioFilename only has backslashes turned "
                   "into slashes; AudioLeadIn is an i32 then converted; last valid Mode / PreviewTime wins; the whole section equals an explicit fourteen-row key ↦ conversion+setter table "
                   "(general_eq_table). [Metadata] is proved equal to an explicit key ↦ conversion+setter "
-                  "table (section_eq_table), from which invalid-value no-op and the frame property (a record changes at most its own field) are derived.")
+                  "table (section_eq_table), from which invalid-value no-op and the frame property (a record changes at most its own field) are derived. "
+                  "Props/C11Tables.lean: the same section = table statement for [Editor] (editor_eq_table: Bookmarks = comma items read by i32::from_str, invalid items skipped, never "
+                  "rejected; two floats, two integers) and [Difficulty] (difficulty_eq_table: six floats, slider multiplier / tick rate clamped, OverallDifficulty also sets the approach "
+                  "rate until an ApproachRate record was accepted); [Colours] as one rule (colours_eq_table: the value is converted first — three or four trimmed u8 components, alpha "
+                  "always 255 (color_parse_spec) — then a Combo… key appends and any other key sets / overrides the custom colour of that name (setCustomColor_lookup)); [Events] by "
+                  "record kind (events_eq_cases: background overwrites, video counts as background iff its ≥3-byte name has no video extension, break appended with end = max(start,end), "
+                  "sprite only fills an empty background, other kinds ignored, anything else rejected). From each table: invalid value ⇒ rejected and state unchanged, frame (a record "
+                  "changes at most the field of its own key; the only exception is the stated OD→AR coupling), and last-valid-wins instantiated for every field of Editor, Difficulty, "
+                  "General and Metadata by one key-indexed theorem per section (editor/difficulty/general/metadata_last_valid_wins), with the approach rate's coupled form "
+                  "approach_rate_last_valid_wins (last valid ApproachRate if any, else last valid OverallDifficulty). These sections' parsers return state × ok in the model — "
+                  "only [General] keeps an error kind, and its table (general_eq_table) states them.")
     technique = "Lean 4 proof (decision-logic theorems over the section parser model) + differential correspondence on a key × value-class matrix"
     trusted_base = [
         "Lean 4.33.0 kernel; axioms ⊆ {propext, Classical.choice, Quot.sound} per #print axioms",
